@@ -356,8 +356,11 @@ impl Version {
         sc: &Arc<LeastRecentlyUsedCache<Setsum, CachedSst>>,
         start_bound: &Bound<T>,
         end_bound: &Bound<T>,
-        timestamp: u64,
+        _timestamp: u64,
     ) -> Result<MergingCursor<Box<dyn Cursor>>, SError> {
+        // NOTE:  The per-SST cursors are deliberately not pruned.  Pruning drops tombstones, and
+        // a tombstone must survive until it has been merged with (and shadowed) the older values
+        // of its key that live in other SSTs.  Callers prune once, above the merge.
         fn lazy_cursor(
             fm: &FileManager,
             sc: &LeastRecentlyUsedCache<Setsum, CachedSst>,
@@ -386,10 +389,7 @@ impl Version {
             let root = self.options.path.clone();
             let setsum = Setsum::from_digest(sst.setsum);
             let lazy = move || lazy_cursor(&fm, &sc, &root, setsum);
-            cursors.push(Box::new(PruningCursor::new(
-                LazyCursor::new(lazy),
-                timestamp,
-            )?));
+            cursors.push(Box::new(LazyCursor::new(lazy)));
         }
         fn bound_to_bound<U: AsRef<[u8]>>(u: &Bound<U>) -> Bound<&[u8]> {
             match u {
@@ -427,7 +427,7 @@ impl Version {
                     let root = self.options.path.clone();
                     let setsum = Setsum::from_digest(sst.setsum);
                     let lazy = move || lazy_cursor(&fm, &sc, &root, setsum);
-                    this_level_cursors.push(PruningCursor::new(LazyCursor::new(lazy), timestamp)?);
+                    this_level_cursors.push(LazyCursor::new(lazy));
                 }
             }
             if !this_level_cursors.is_empty() {
